@@ -54,6 +54,9 @@ mod entry;
 mod structs;
 mod wgsl;
 
+#[cfg(feature = "verif")]
+pub mod verif;
+
 pub use naga::valid::Capabilities as WgslCapabilities;
 
 /// Errors while generating Rust source for a WGSL shader module.
@@ -457,6 +460,8 @@ fn pretty_print_rustfmt(tokens: TokenStream) -> String {
         .stderr(Stdio::null())
         .spawn()
     {
+        #[cfg(feature = "verif")]
+        verif::failpoint("rustfmt_spawned");
         let stdin = proc.stdin.as_mut().unwrap();
         stdin.write_all(value.as_bytes()).unwrap();
 
